@@ -323,6 +323,56 @@ func (r *c03run) run() error {
 			}
 		}
 	}
+	// (8) type-ahead: a dozen keys arrive while the application is not
+	// polling (the event queue fills and the main loop falls behind the
+	// reader), followed by two more reads, the first of which ends inside a
+	// sequence; simulated time passes before polling resumes.  Everything
+	// had arrived before the first byte was looked at, so the result is the
+	// concatenation.
+	if len(seqs) > 1 {
+		n := 6
+		if thorough {
+			n = 60
+		}
+		for i := 0; i < n; i++ {
+			var parts []*keySeq
+			var chunks [][]byte
+			head := ""
+			for j := 0; j < 11+r.rng.Intn(3); j++ {
+				ks := seqs[r.rng.Intn(len(seqs))]
+				parts = append(parts, ks)
+				head += ks.Seq
+			}
+			a, b := seqs[r.rng.Intn(len(seqs))], seqs[r.rng.Intn(len(seqs))]
+			parts = append(parts, a, b)
+			cut := 0
+			if len(a.Seq) > 1 {
+				cut = 1 + r.rng.Intn(len(a.Seq)-1)
+			}
+			chunks = append(chunks, []byte(head+a.Seq[:cut]), []byte(a.Seq[cut:]), []byte(b.Seq))
+			ms := []int{0, 60, 200}[r.rng.Intn(3)]
+			seq := head + a.Seq + b.Seq
+			w.feedBurst(chunks, ms)
+			w.settle()
+			all := w.take()
+			r.cases++
+			ok := len(all) == len(parts)
+			if ok {
+				for j := range parts {
+					if !parts[j].accepts(all[j]) {
+						ok = false
+					}
+				}
+			}
+			if !ok {
+				var names []string
+				for _, p := range parts {
+					names = append(names, p.String())
+				}
+				r.fail("C03/concat", "burst", seq, cut, "type-ahead %s read as %d+%d+%d bytes while the application was not polling (%d ms) decoded to %v", strings.Join(names, " + "), len(chunks[0]), len(chunks[1]), len(chunks[2]), ms, all)
+			}
+		}
+	}
 	if w.stall {
 		r.fail("C03/key", "stall", "", 0, "input pipeline did not reach quiescence within the step budget")
 	}
